@@ -419,6 +419,25 @@ def smoke_adaptive(rng, n):
             ref = x0 * np.exp(-a * r.index.values)
             if r.values.shape != (8, 1) or np.max(np.abs(r.values.ravel() - ref)) > 1e-5 or not np.allclose(r.index.values, np.arange(8) * 0.25):
                 bad.append({"a": a, "x0": x0, "got": r.values.ravel().tolist(), "ref": ref.tolist(), "index": r.index.values.tolist()})
+        # every scipy method against the closed form of a two-variable system (tight tolerances); integrators that keep the array the vector field returned
+        # (DOP853's dense output) must not see it overwritten by later calls
+        tt = np.arange(8) * 0.25
+        ref2 = 2 * np.exp(-tt) - np.exp(-2 * tt)
+        for backend in ("default", "torch", "jax"):
+            for method in ("RK45", "DOP853", "Radau", "LSODA"):
+                try:
+                    with warnings.catch_warnings():
+                        warnings.simplefilter("ignore")
+                        op = OperatorTemplate(name="op2", equations=["x' = -a*x + z", "z' = -z"], variables={"x": "output(1.0)", "z": "variable(2.0)", "a": 2.0}, path=None)
+                        c = CircuitTemplate(name="c2", nodes={"p": NodeTemplate(name="n2", operators=[op], path=None)}, edges=[])
+                        r = c.run(simulation_time=2.0, step_size=0.01, sampling_step_size=0.25, solver="scipy", method=method, rtol=1e-10, atol=1e-12, outputs={"x": "p/op2/x"},
+                                  float_precision="float64", verbose=False, in_place=rng.random() < 0.5, backend=backend, vectorize=False)
+                    done += 1
+                    err = float(np.max(np.abs(np.asarray(r.values).ravel() - ref2)))
+                    if not (err < 1e-7):
+                        bad.append({"adaptive_method": method, "backend": backend, "max_abs_error_vs_closed_form": err, "rtol": 1e-10, "atol": 1e-12})
+                except Exception as e:
+                    bad.append({"adaptive_method": method, "backend": backend, "raise": f"{type(e).__name__}: {str(e)[:200]}"})
         # wiring of the adaptive call: what the user asked for must reach scipy.integrate.solve_ivp unchanged
         import scipy.integrate as _si
         orig = _si.solve_ivp
